@@ -35,26 +35,35 @@ theorem cli_max_positive : ∀ m ∈ Wtf.Gen.History.cliMaxSizes, 0 < m ∧ (new
 section
 variable {F : Type} (C : Codec F)
 
-/-- **Bounded, ordered, the most recent searches.**  After any sequence of adds, saves, loads and clears
-    starting from `NewSearchHistory(path, m)`: no add panicked; the limit in force is the requested one
-    (or the default for a non-positive request) and is positive; never more entries than the limit;
-    timestamps are non-decreasing; and the entries are exactly the last `max` elements of the unbounded
-    reference log (`specRun`: an immediately repeated query replaces its predecessor, `load` returns to
-    the log as it was at the last `save`, `clear` empties it). -/
+/-- **Bounded, ordered, the most recent searches.**  After any sequence of adds, saves, loads, clears and
+    new processes on the same file (`restart m'`, any requested size) starting from
+    `NewSearchHistory(path, m)`: no add panicked; the limit in force is positive; never more entries than
+    the limit; timestamps are non-decreasing; and the entries are exactly the last `max` elements of the
+    unbounded reference log (`specRun`: an immediately repeated query replaces its predecessor, `load`
+    returns to the log as it was at the last `save`, `clear` empties it, a new process starts empty). -/
 theorem bounded_ordered {valid : Bytes → Prop} (L : C.Laws valid) (m t0 : Int) (ops : List (Op F))
     (htool : ∀ op ∈ ops, op.isTool = true) (hvalid : ∀ op ∈ ops, op.Valid valid) :
     ∃ y, run C P (init P m t0) ops = .ok y ∧
-      y.h.maxSize = (if m ≤ 0 then Wtf.Gen.History.newDefault else m) ∧ 0 < y.h.maxSize ∧
+      0 < y.h.maxSize ∧
       (y.h.entries.length : Int) ≤ y.h.maxSize ∧
       y.h.entries.Pairwise (fun a b => a.ts ≤ b.ts) ∧
       y.h.entries.map Entry.core = lastN y.h.maxSize.toNat (specRun ⟨[], none, t0⟩ ops).log := by
   have hpos := new_maxSize_pos gen_params_ok m
-  obtain ⟨y, hy, hi⟩ := run_inv C L P hpos ops (init_inv C P gen_params_ok m t0) htool hvalid
-  refine ⟨y, hy, ?_, ?_, ?_, hi.chrono.1, ?_⟩
-  · rw [hi.max]; rfl
-  · rw [hi.max]; exact hpos
-  · rw [hi.max]; exact hi.bounded
-  · rw [hi.max]; exact hi.refines
+  obtain ⟨y, hy, hi⟩ := run_inv C L P (Q := fun k => 0 < k) (fun _ h => h) ops
+    (init_inv C P m t0 hpos hpos) (fun op ho => Op.ok_of_isTool gen_params_ok op (htool op ho)) hvalid
+  exact ⟨y, hy, hi.max, hi.bounded, hi.chrono.1, hi.refines⟩
+
+/-- The limit in force is the requested one (or the default for a non-positive request) as long as every
+    process on the file asks for the same effective size — which is what the CLI does (`cli_max_positive`). -/
+theorem limit_is_requested {valid : Bytes → Prop} (L : C.Laws valid) (m t0 : Int) (ops : List (Op F))
+    (hsame : ∀ op ∈ ops, op.Ok P (fun k => k = (if m ≤ 0 then Wtf.Gen.History.newDefault else m)))
+    (hvalid : ∀ op ∈ ops, op.Valid valid) :
+    ∃ y, run C P (init P m t0) ops = .ok y ∧
+      y.h.maxSize = (if m ≤ 0 then Wtf.Gen.History.newDefault else m) := by
+  have hpos := new_maxSize_pos gen_params_ok m
+  obtain ⟨y, hy, hi⟩ := run_inv C L P (Q := fun k => k = (if m ≤ 0 then Wtf.Gen.History.newDefault else m))
+    (fun k hk => by rw [hk]; exact hpos) ops (init_inv C P m t0 rfl hpos) hsame hvalid
+  exact ⟨y, hy, hi.max⟩
 
 /-- **Immediate duplicate.**  Adding the query of the last entry again replaces that entry (new
     timestamp, results, context, duration) and adds nothing — whatever the limit is. -/
@@ -92,15 +101,16 @@ theorem roundtrip {valid : Bytes → Prop} (L : C.Laws valid) (r s : State) (hm 
 
 /-- The same inside histories: in every state reachable by adds/saves/loads/clears, `save` followed by `load`
     changes nothing, and a new process (any requested size `m'`) that loads the saved file holds exactly the
-    same entries under the same limit. -/
+    same entries under the same limit (histories may themselves contain such restarts). -/
 theorem roundtrip_history {valid : Bytes → Prop} (L : C.Laws valid) (m t0 : Int) (ops : List (Op F))
     (htool : ∀ op ∈ ops, op.isTool = true) (hvalid : ∀ op ∈ ops, op.Valid valid) :
     ∃ y y', run C P (init P m t0) ops = .ok y ∧ run C P (init P m t0) (ops ++ [.save, .load]) = .ok y' ∧
       y'.h = y.h ∧ ∀ m' : Int, (load C P (new P m') (some (saveBytes C y.h))) = (y.h, none) := by
   have hpos := new_maxSize_pos gen_params_ok m
-  obtain ⟨y, hy, hi⟩ := run_inv C L P hpos ops (init_inv C P gen_params_ok m t0) htool hvalid
+  obtain ⟨y, hy, hi⟩ := run_inv C L P (Q := fun k => 0 < k) (fun _ h => h) ops
+    (init_inv C P m t0 hpos hpos) (fun op ho => Op.ok_of_isTool gen_params_ok op (htool op ho)) hvalid
   have hrt : ∀ r : State, load C P r (some (saveBytes C y.h)) = (y.h, none) :=
-    fun r => load_saveBytes C L P r y.h (by rw [hi.max]; exact hpos) hi.validE
+    fun r => load_saveBytes C L P r y.h hi.max hi.validE
   have happ : ∀ (ops1 ops2 : List (Op F)) (a b : Sys F), run C P a ops1 = .ok b →
       run C P a (ops1 ++ ops2) = run C P b ops2 := by
     intro ops1
@@ -281,12 +291,16 @@ private def Pex : Params := ⟨100, true, some 100⟩
 private def q (c : UInt8) : Bytes := [c]
 private def demoOps : List (Op JVal) :=
   [.add (q 97) 1 [] 0 1, .add (q 98) 2 [103, 111] 5 1, .add (q 98) 3 [] 0 0, .save, .add (q 99) 4 [] 0 2, .add (q 97) 5 [] 0 1,
-   .load, .add (q 100) 6 [] 0 1]
+   .restart 7, .load, .add (q 100) 6 [] 0 1]
 
--- limit 2: b was added twice in a row (collapsed), c and a were added after the save and are gone after the load
+-- limit 2: b was added twice in a row (collapsed); c and a were added after the save and are gone in the new
+-- process (which asked for 7 but takes the file's limit 2)
 example : (match run docCodec Pex (init Pex 2 1000) demoOps with
     | .ok y => y.h.entries.map (fun e => (e.query, e.results, e.context))
     | .error _ => []) = [(q 98, 3, []), (q 100, 6, [])] := by decide
+example : (match run docCodec Pex (init Pex 2 1000) demoOps with
+    | .ok y => y.h.maxSize
+    | .error _ => 0) = 2 := by decide
 example : (specRun (F := JVal) ⟨[], none, 1000⟩ demoOps).log.map (·.1) = [q 97, q 98, q 100] := by decide
 example : ∀ op ∈ demoOps, op.isTool = true := by decide
 -- hostile file: max_size -3 is not taken over, the entries are; then a search is recorded
